@@ -55,43 +55,47 @@ var callbackModels = map[string]int{
 // opaqueModels: library functions that do not touch the program heap; results are unconstrained
 // (fresh values, older than anything allocated later).
 var opaqueModels = map[string]bool{
-	"github.com/go-faster/jx.DecodeStr":                               true,
-	"github.com/go-faster/jx.DecodeBytes":                             true,
-	"(*github.com/go-faster/jx.Decoder).Next":                         true,
-	"(*github.com/go-faster/jx.Decoder).Str":                          true,
-	"(*github.com/go-faster/jx.Decoder).StrBytes":                     true,
-	"(*github.com/go-faster/jx.Decoder).Skip":                         true,
-	"(*github.com/go-faster/jx.Decoder).Num":                          true,
-	"(*github.com/go-faster/jx.Decoder).Null":                         true,
-	"(*github.com/go-faster/jx.Decoder).Bool":                         true,
-	"(*github.com/go-faster/jx.Decoder).Raw":                          true,
-	"(github.com/go-faster/jx.Num).IsInt":                             true,
-	"(github.com/go-faster/jx.Num).Int64":                             true,
-	"(github.com/go-faster/jx.Num).Float64":                           true,
-	"github.com/go-logfmt/logfmt.NewDecoder":                          true,
-	"(*github.com/go-logfmt/logfmt.Decoder).ScanRecord":               true,
-	"(*github.com/go-logfmt/logfmt.Decoder).ScanKeyval":               true,
-	"(*github.com/go-logfmt/logfmt.Decoder).Key":                      true,
-	"(*github.com/go-logfmt/logfmt.Decoder).Value":                    true,
-	"(*github.com/go-logfmt/logfmt.Decoder).Err":                      true,
-	"strings.NewReader":                                               true,
-	"(*text/scanner.Scanner).Init":                                    true,
-	"(*github.com/spf13/cobra.Command).Context":                       true,
-	"(*github.com/spf13/cobra.Command).OutOrStdout":                   true,
-	"go.opentelemetry.io/collector/pdata/pcommon.NewValueSlice":       true,
-	"go.opentelemetry.io/collector/pdata/pcommon.NewValueMap":         true,
-	"go.opentelemetry.io/collector/pdata/pcommon.NewValueInt":         true,
-	"go.opentelemetry.io/collector/pdata/pcommon.NewValueDouble":      true,
-	"go.opentelemetry.io/collector/pdata/pcommon.NewValueBool":        true,
-	"(go.opentelemetry.io/collector/pdata/pcommon.Value).Slice":       true,
-	"(go.opentelemetry.io/collector/pdata/pcommon.Value).Map":         true,
-	"(go.opentelemetry.io/collector/pdata/pcommon.Value).CopyTo":      true,
-	"(go.opentelemetry.io/collector/pdata/pcommon.Slice).AppendEmpty": true,
-	"(go.opentelemetry.io/collector/pdata/pcommon.Map).PutEmpty":      true,
-	"(*text/scanner.Scanner).TokenText":                               true,
-	"(*text/scanner.Scanner).Pos":                                     true,
-	"(*regexp.Regexp).FindStringSubmatch":                             true,
-	"(*regexp.Regexp).SubexpNames":                                    true,
+	"github.com/go-faster/jx.DecodeStr":                                true,
+	"github.com/go-faster/jx.DecodeBytes":                              true,
+	"(*github.com/go-faster/jx.Decoder).Next":                          true,
+	"(*github.com/go-faster/jx.Decoder).Str":                           true,
+	"(*github.com/go-faster/jx.Decoder).StrBytes":                      true,
+	"(*github.com/go-faster/jx.Decoder).Skip":                          true,
+	"(*github.com/go-faster/jx.Decoder).Num":                           true,
+	"(*github.com/go-faster/jx.Decoder).Null":                          true,
+	"(*github.com/go-faster/jx.Decoder).Bool":                          true,
+	"(*github.com/go-faster/jx.Decoder).Raw":                           true,
+	"(github.com/go-faster/jx.Num).IsInt":                              true,
+	"(github.com/go-faster/jx.Num).Int64":                              true,
+	"(github.com/go-faster/jx.Num).Float64":                            true,
+	"github.com/go-logfmt/logfmt.NewDecoder":                           true,
+	"(*github.com/go-logfmt/logfmt.Decoder).ScanRecord":                true,
+	"(*github.com/go-logfmt/logfmt.Decoder).ScanKeyval":                true,
+	"(*github.com/go-logfmt/logfmt.Decoder).Key":                       true,
+	"(*github.com/go-logfmt/logfmt.Decoder).Value":                     true,
+	"(*github.com/go-logfmt/logfmt.Decoder).Err":                       true,
+	"strings.NewReader":                                                true,
+	"(go.opentelemetry.io/collector/pdata/pcommon.TraceID).IsEmpty":    true,
+	"(go.opentelemetry.io/collector/pdata/pcommon.SpanID).IsEmpty":     true,
+	"(go.opentelemetry.io/collector/pdata/plog.SeverityNumber).String": true,
+	"(*strings.Builder).Grow":                                          true,
+	"(*text/scanner.Scanner).Init":                                     true,
+	"(*github.com/spf13/cobra.Command).Context":                        true,
+	"(*github.com/spf13/cobra.Command).OutOrStdout":                    true,
+	"go.opentelemetry.io/collector/pdata/pcommon.NewValueSlice":        true,
+	"go.opentelemetry.io/collector/pdata/pcommon.NewValueMap":          true,
+	"go.opentelemetry.io/collector/pdata/pcommon.NewValueInt":          true,
+	"go.opentelemetry.io/collector/pdata/pcommon.NewValueDouble":       true,
+	"go.opentelemetry.io/collector/pdata/pcommon.NewValueBool":         true,
+	"(go.opentelemetry.io/collector/pdata/pcommon.Value).Slice":        true,
+	"(go.opentelemetry.io/collector/pdata/pcommon.Value).Map":          true,
+	"(go.opentelemetry.io/collector/pdata/pcommon.Value).CopyTo":       true,
+	"(go.opentelemetry.io/collector/pdata/pcommon.Slice).AppendEmpty":  true,
+	"(go.opentelemetry.io/collector/pdata/pcommon.Map).PutEmpty":       true,
+	"(*text/scanner.Scanner).TokenText":                                true,
+	"(*text/scanner.Scanner).Pos":                                      true,
+	"(*regexp.Regexp).FindStringSubmatch":                              true,
+	"(*regexp.Regexp).SubexpNames":                                     true,
 }
 
 func (ex *Exec) modelCall(full string, args []Val, st *State, sig *types.Signature) ([]Val, bool) {
@@ -396,6 +400,9 @@ func init() {
 	reg("strconv.FormatBool", "\"true\" / \"false\"", func(ex *Exec, a []Val, st *State, _ *types.Signature) []Val {
 		return []Val{Ite(tm(a[0]), StrLit("true"), StrLit("false"))}
 	})
+	reg("strconv.FormatFloat", "uninterpreted function of (f, fmt, prec, bitSize)", func(ex *Exec, a []Val, st *State, _ *types.Signature) []Val {
+		return []Val{UF("strconv.formatFloat", SStr, tm(a[0]), tm(a[1]), tm(a[2]), tm(a[3]))}
+	})
 	reg("strconv.Itoa", "FormatInt(i, 10)", func(ex *Exec, a []Val, st *State, _ *types.Signature) []Val {
 		return []Val{UF("strconv.formatInt", SStr, tm(a[0]), IntT(10))}
 	})
@@ -462,6 +469,22 @@ func init() {
 		s := tm(a[0])
 		ok := UF("netip.parsePrefix.ok", SBool, s)
 		return []Val{ufVal("netip.parsePrefix.v", sig.Results().At(0).Type(), s), iteVal(ok, nilIface(), ex.nonNilErr("ipprefix", s))}
+	})
+	regEff("maps.Clear", "the map becomes empty", func(ex *Exec, a []Val, st *State, sig *types.Signature) []Val {
+		mt, ok := sig.Params().At(0).Type().Underlying().(*types.Map)
+		if !ok {
+			unsupp("maps.Clear of non-map")
+		}
+		st.heap.mapInitEmpty(tm(a[0]), mt)
+		return nil
+	})
+	regEff("golang.org/x/exp/maps.Clear", "the map becomes empty", func(ex *Exec, a []Val, st *State, sig *types.Signature) []Val {
+		mt, ok := sig.Params().At(0).Type().Underlying().(*types.Map)
+		if !ok {
+			unsupp("maps.Clear of non-map")
+		}
+		st.heap.mapInitEmpty(tm(a[0]), mt)
+		return nil
 	})
 	// ---- maps.Clone: nil stays nil, otherwise a fresh map with the same entries
 	regEff("maps.Clone", "nil for nil; otherwise a new map with exactly the same entries", func(ex *Exec, a []Val, st *State, sig *types.Signature) []Val {
